@@ -240,6 +240,15 @@ class LinearLeastSquares(App):
                 self.x = self.y_device.xp.zeros(A.ishape, dtype=y.dtype)
 
         self.x_device = backend.get_device(self.x)
+        # x is updated in place: keep the data and the prior intact when the
+        # caller passes the same array for them as for the initial x.
+        xp = self.x_device.xp
+        if xp.may_share_memory(self.x, self.y):
+            self.y = self.y.copy()
+
+        if self.z is not None and xp.may_share_memory(self.x, self.z):
+            self.z = self.z.copy()
+
         self._get_alg()
         if self.save_objective_values:
             self.objective_values = [self.objective()]
